@@ -26,7 +26,7 @@ CR = 1e3
 def BOUNDS(tier):
     return {'max_order': 4 if tier == 'quick' else 7, 'operator_max_order': 2 if tier == 'quick' else 3, 'input_kinds': KINDS,
             'rmax': ['inf', 1, 2, 'per-bond list'], 'eps': 'decision walk over [1e-15,1) with +-2 ulp at breakpoints, plus 0, 1e-12, 0.1, 0.5',
-            'dtypes': ['f64', 'c128']}
+            'dtypes': ['f64', 'c128', 'c64 (three input kinds)']}
 
 
 def cases(tier, seed):
@@ -43,7 +43,9 @@ def cases(tier, seed):
         for kind in KINDS:
             if (kind.startswith('svd') or kind.endswith('_decay')) and int(np.prod(N)) < 4:
                 continue
-            for dt in ('f64', 'c128'):
+            for dt in ('f64', 'c128', 'c64'):
+                if dt == 'c64' and kind not in ('raw_gauss', 'svd_decay', 'inflated'):
+                    continue
                 if kind == 'raw_over_tall' and (d < 2 or d > 3 or max(N) > 2):
                     continue
                 if dt == 'c128' and kind in ('svd_flat', 'raw_zero', 'raw_over'):
@@ -220,6 +222,6 @@ def cases(tier, seed):
 
 
 def run_case(c):
-    if c.get('g') == 'E2':
+    if c.get('g') in ('E2', 'E2R'):
         return _ht.run_case(PROPERTY, c)
     return _run_case_e1(c)
